@@ -133,6 +133,8 @@ func NewBalDriver(mode string) *BalDriver {
 			balOp{kind: "probeXfer", from: "Kc", to: "B", amt: bigS("3"), signer: "S"},
 			balOp{kind: "probeXfer", from: "Kc", to: "B", amt: bigS("-5"), signer: "S"},
 			balOp{kind: "probeXfer", from: "A", to: "Kc", amt: bigS("3"), signer: "S"},
+			balOp{kind: "mint", to: "Bal", amt: bigS("5"), signer: "C"},
+			balOp{kind: "transfer", from: "Bal", to: "A", amt: bigS("3"), signer: "S"},
 			balOp{kind: "transferX", from: "A", to: "B", amt: bigS("3"), signer: "C"},
 			balOp{kind: "transferX", from: "A", to: "B", amt: bigS("-5"), signer: "C"},
 			balOp{kind: "transferX", from: "A", to: "B", amt: bigS("8"), signer: "C"},
@@ -151,6 +153,11 @@ func NewBalDriver(mode string) *BalDriver {
 			add(balOp{kind: "mint", to: to, amt: bigS("5"), signer: "C"})
 		}
 		add(balOp{kind: "mint", to: "Kc", amt: bigS("5"), signer: "C"})
+		// contract-owned accounts, debited from outside: the token contract's own hash and the probe's
+		add(balOp{kind: "mint", to: "Bal", amt: bigS("5"), signer: "C"},
+			balOp{kind: "transfer", from: "Bal", to: "A", amt: bigS("3"), signer: "S"}, balOp{kind: "transfer", from: "Bal", to: "A", amt: bigS("3"), signer: "nobody"},
+			balOp{kind: "transfer", from: "Bal", to: "A", amt: bigS("3"), signer: "to"}, balOp{kind: "transfer", from: "Kc", to: "B", amt: bigS("3"), signer: "S"},
+			balOp{kind: "probeXfer", from: "Bal", to: "Kc", amt: bigS("3"), signer: "S"})
 		pairs := [][2]string{{"A", "B"}, {"B", "A"}, {"A", "A"}, {"A", "E"}, {"E", "A"}}
 		for _, p := range pairs {
 			for _, a := range amts("-5", "0", "3", "5", "8") {
@@ -240,7 +247,7 @@ func (d *BalDriver) Build() *World {
 	mk := func(b byte) []byte { a := make([]byte, 20); a[0] = b; a[19] = b; return a }
 	d.addrs = map[string][]byte{
 		"A": w.Acct("A").Hash.BytesBE(), "B": w.Acct("B").Hash.BytesBE(), "S": w.Acct("S").Hash.BytesBE(), "E": w.Acct("E").Hash.BytesBE(),
-		"Kc": kc.Hash.BytesBE(),
+		"Kc": kc.Hash.BytesBE(), "Bal": w.Contracts["balance"].Hash.BytesBE(),
 		"L1": mk(0xf1), "L2": mk(0xf2), "L3": mk(0xf3),
 		"bad19": make([]byte, 19), "bad21": make([]byte, 21), "empty": {}}
 	w.Freeze()
@@ -666,7 +673,7 @@ func (d *BalDriver) Step(x *Exec, n *Node, i int) StepResult {
 		nn.M = m
 		return StepResult{Next: nn, Outcome: outcome}
 	}
-	for _, sym := range []string{"A", "B", "S", "E", "Kc", "L1", "L2", "L3"} {
+	for _, sym := range []string{"A", "B", "S", "E", "Kc", "Bal", "L1", "L2", "L3"} {
 		a := d.addrs[sym]
 		r := x.W.Read(nn.L, nn.H, nn.TS, balH, "balanceOf", a)
 		want := NB(nm.get(Hx(a)))
